@@ -1573,9 +1573,17 @@ func resolveVar(computed map[string]pr.RawTokens, token Token, visiting utils.Se
 	}
 
 	_, args := pa.ParseFunction(token)
-	// first arg is name, next args are default value
-	varNameToken, default_ := args[0], args[1:]
-	variableName := varNameToken.(pa.Ident).Value
+	// first arg is name
+	variableName := args[0].(pa.Ident).Value
+	// the default value is everything after the first comma: the commas it
+	// contains are part of it (ParseFunction drops them)
+	var default_ []Token
+	for i, argument := range fn.Arguments {
+		if pa.IsLiteral(argument, ",") {
+			default_ = pa.RemoveWhitespace(fn.Arguments[i+1:])
+			break
+		}
+	}
 
 	// the value of the variable when it may be used, then the fallback
 	var sources [][]Token
